@@ -1,0 +1,51 @@
+//go:build verif
+
+// Contracts (machine-checked specifications) for the dispatcher component, read by /verif's govc.
+// This file contains comments only and compiles to nothing with or without the tag.
+
+package dispatcher
+
+// ---------------------------------------------------------------------------------------------
+// Actions run in payload order on the running amount; the final coin is forwarded (C06)
+// ---------------------------------------------------------------------------------------------
+
+// The k-th dispatch carries the k-th listed action and the one shared attributes object; between two
+// dispatches nobody touches the running coin (after every iteration it is exactly what the last
+// handler left: disp_exit).
+//@ func (d *Dispatcher) dispatchActions(ctx, transferAttr, actions) (err)
+//@   requires[inv]  d != nil && d.logger != nil && d.ActionHandler != nil
+//@   requires[base] transferAttr != nil && taOK(transferAttr)
+//@   requires[base] forall j int :: 0 <= j && j < len(actions) ==> actionOK(actions[j])
+//@   modifies bank, events, actcalls, act_ctrl, act_pkt, disp_act_n, disp_act_log, disp_act_ta, disp_exit, transferAttr.destinationCoin
+//@   loop 0 invariant[C06] disp_act_n == old(disp_act_n) + idx
+//@   loop 0 invariant[C06] forall j int :: 0 <= j && j < idx ==> disp_act_log[old(disp_act_n) + j] == actions[j]
+//@   loop 0 invariant[C06] idx > 0 ==> disp_act_ta == transferAttr && transferAttr.destinationCoin == disp_exit
+//@   loop 0 invariant[C06] idx == 0 ==> transferAttr.destinationCoin == old(transferAttr.destinationCoin)
+//@   loop 0 invariant[base] fieldframe("types/core.TransferAttributes", "destinationCoin", transferAttr)
+//@   ensures[C06] err == nil ==> disp_act_n == old(disp_act_n) + len(actions)
+//@   ensures[C06] err == nil ==> forall j int :: 0 <= j && j < len(actions) ==> disp_act_log[old(disp_act_n) + j] == actions[j]
+//@   ensures[C06] err == nil && len(actions) > 0 ==> disp_act_ta == transferAttr && transferAttr.destinationCoin == disp_exit
+//@   ensures[C06] err == nil && len(actions) == 0 ==> transferAttr.destinationCoin == old(transferAttr.destinationCoin)
+
+// The forwarding step gets the same attributes object and the forwarding of the payload.
+//@ func (d *Dispatcher) dispatchForwarding(ctx, transferAttr, forwarding) (err)
+//@   requires[inv]  d != nil && d.logger != nil && d.ForwardingHandler != nil
+//@   requires[base] transferAttr != nil && forwardingOK(forwarding)
+//@   modifies bank, events, fwdcalls, fwd_ctrl, fwd_pkt, disp_fwd_n, disp_fwd_ta, disp_fwd_fw, disp_fwd_coin, out_n, out_kind, out_cctp, out_cctpc, out_hyp, out_send
+//@   ensures[C06] err == nil ==> disp_fwd_n == old(disp_fwd_n) + 1 && disp_fwd_ta == transferAttr && disp_fwd_fw == forwarding && disp_fwd_coin == old(transferAttr.destinationCoin)
+//@   ensures[C06] disp_fwd_n <= old(disp_fwd_n) + 1
+
+// The whole dispatch: a payload with a repeated (or otherwise invalid) action list is refused before
+// anything runs; on success every action ran once, in order, on the shared attributes, and the
+// forwarding step saw exactly the coin the last action left (or the incoming coin without actions).
+//@ func (d *Dispatcher) DispatchPayload(ctx, transferAttr, payload) (err)
+//@   requires[inv]  d != nil && d.logger != nil && d.ActionHandler != nil && d.ForwardingHandler != nil
+//@   requires[base] transferAttr != nil && taOK(transferAttr)
+//@   modifies ghosts, transferAttr.destinationCoin
+//@   ensures[C06] err == nil ==> payloadOK(payload)
+//@   ensures[C06] !payloadOK(payload) ==> disp_act_n == old(disp_act_n) && disp_fwd_n == old(disp_fwd_n)
+//@   ensures[C06] err == nil ==> disp_act_n == old(disp_act_n) + len(payload.PreActions) && disp_fwd_n == old(disp_fwd_n) + 1
+//@   ensures[C06] err == nil ==> forall j int :: 0 <= j && j < len(payload.PreActions) ==> disp_act_log[old(disp_act_n) + j] == payload.PreActions[j]
+//@   ensures[C06] err == nil ==> disp_fwd_ta == transferAttr && disp_fwd_fw == payload.Forwarding
+//@   ensures[C06] err == nil && len(payload.PreActions) > 0 ==> disp_act_ta == transferAttr && disp_fwd_coin == disp_exit
+//@   ensures[C06] err == nil && len(payload.PreActions) == 0 ==> disp_fwd_coin == old(transferAttr.destinationCoin)
